@@ -13,7 +13,7 @@ def run(tier):
     prop = "C19"
     t0 = time.monotonic()
     base = core.base_seed()
-    wall = budget(tier, 55)
+    wall = budget(tier, 75)
     scratch = core.Scratch(NW)
     report = runner.Report(prop)
     agg = Agg()
@@ -64,7 +64,7 @@ def run(tier):
                     for k, v in (res.get("stats") or {}).items():
                         agg.stats[k] += v
                     for vres in res.get("violating", []):
-                        report.add_violation(vres, hs_of[group], scratch)
+                        report.add_violation(vres, hs_of[group], scratch, pool=pool)
                     return
                 agg.add(group, job, res, bool(res.get("nontrivial")), res.get("dkey"))
                 if group == "A":
@@ -75,7 +75,7 @@ def run(tier):
                 if job.get("want_trace") and res.get("trace") and len(agg.samples) < 3:
                     agg.samples.append(_sample_of(res["trace"]))
                 if res.get("status") == "violation" and group == "A":
-                    report.add_violation(res, hs_of[group], scratch)
+                    report.add_violation(res, hs_of[group], scratch, pool=pool)
                     if len(report.violations) >= report.max_reports:
                         pool.stop = True
             pool.run({"A": a_jobs(), "B": cross_jobs(), "C": cross_jobs()}, on_result, deadline=t0 + wall)
